@@ -20,7 +20,7 @@ import struct
 from ..core import Ctx, PropSpec, Unsupported
 from ..extract import where
 from ..harness import Harness
-from ..interp import DictObj, Obj, Raised
+from ..interp import DictObj, ExcVal, Obj, Raised
 from ..models import VALUE_CLASSES, new_raw, source_externals
 from ..program import AnchorMissing
 from . import xmlcommon as X
@@ -111,13 +111,39 @@ class PathStub(str):
     """pathlib.Path for the purposes of create_dataset: a comparable, hashable file name."""
 
 
+# the first two bytes of a packet file are its first packet's identification word; 1F 8B (version 0, type 1, secondary header
+# flag 1, APID 1931) is a legal one that happens to equal the gzip magic number
+HEADS = {"fileB": b"\x1f\x8b"}
+
+
 class FileBytes(bytes):
     """What `Path(f).read_bytes()` / `open(f,'rb').read()` returns in the model: a marker naming the file (joining several
     gives plain bytes with several markers, which the generator stub recognises as "files glued together")."""
     def __new__(cls, path):
-        o = bytes.__new__(cls, b"<file:" + str(path).encode() + b">")
+        o = bytes.__new__(cls, HEADS.get(str(path), b"\x08\x03") + b"<file:" + str(path).encode() + b">")
         o.path = str(path)
         return o
+
+
+def _file_obj(path, gz=False):
+    st = {"pos": 0}
+
+    def read(n=-1):
+        if gz:      # a packet file is not a gzip stream: reading it through gzip fails (wrong method byte / CRC)
+            raise Raised(ExcVal("BadGzipFile", ("Not a gzipped file",)))
+        data = FileBytes(path)
+        if n is None or n < 0:
+            out, st["pos"] = (data if st["pos"] == 0 else bytes(data)[st["pos"]:]), len(data)
+            return out
+        out = bytes(data)[st["pos"]:st["pos"] + n]
+        st["pos"] += len(out)
+        return out
+
+    def seek(off, whence=0):
+        st["pos"] = off if whence == 0 else (st["pos"] + off if whence == 1 else len(FileBytes(path)) + off)
+        return st["pos"]
+    return Obj(None, __kind__="file", __path__=str(path), __gzip__=gz, read=read, seek=seek, tell=lambda: st["pos"],
+               peek=lambda n=0: bytes(FileBytes(path))[st["pos"]:st["pos"] + max(n, 2)], close=lambda: None)
 
 
 def _native_attr(base, attr):
@@ -125,7 +151,7 @@ def _native_attr(base, attr):
         if attr == "read_bytes":
             return lambda: FileBytes(base)
         if attr == "open":
-            return lambda mode="r", *a, **k: Obj(None, __kind__="file", __path__=str(base), read=lambda n=-1: FileBytes(base))
+            return lambda mode="r", *a, **k: _file_obj(base)
         if attr == "name":
             return str(base).rsplit("/", 1)[-1]
         if attr in ("exists", "is_file"):
@@ -167,7 +193,9 @@ class Rec:
         e.update({
             "np": Obj(None, asarray=asarray, array=asarray), "numpy": Obj(None, asarray=asarray, array=asarray),
             "xr": Obj(None, Dataset=dataset), "xarray": Obj(None, Dataset=dataset),
-            "open": lambda path, mode="r", *a, **k: Obj(None, __kind__="file", __path__=str(path), read=lambda n=-1: FileBytes(path)),
+            "open": lambda path, mode="r", *a, **k: _file_obj(path),
+            "gzip.open": lambda path, mode="rb", *a, **k: _file_obj(path, gz=True),
+            "gzip": Obj(None, open=lambda path, mode="rb", *a, **k: _file_obj(path, gz=True), __extmodule__="gzip"),
             "Path": PathStub, "pathlib.Path": PathStub, "native_attr": _native_attr,
             "collections.defaultdict": collections.defaultdict, "collections": Obj(None, defaultdict=collections.defaultdict),
         })
@@ -288,6 +316,8 @@ def dataset_rule(ctx: Ctx):
         def pg(selfv, f, **kw):
             seen_kwargs.append(dict(kw))
             names = files_of(f)
+            if isinstance(f, Obj) and f.attrs.get("__gzip__"):
+                f.attrs["read"](6)          # the framer reads the handle it is given
             if len(names) != 1:
                 glued.append(names)
             return [p for n in names for p in streams[n]]
